@@ -353,15 +353,13 @@ Proof.
         assert (Hri2 : receiving_inv (ss_cursors s2) mb (ss_receiving s2)) by exact I.
         pose proof (scan_mailbox_ok r c false s2 Hsrc Hlen2 Hsk2 Hri2 (or_introl eq_refl)) as H.
         destruct (scan_mailbox r c false s0 s2 mb) as [v mb'|s'|s'|e s'|n]; auto.
-        -- destruct H as (Hg & Hm). split; auto.
-           destruct Hg as (G1 & G2 & G3 & G4 & G5). unfold good. repeat split; auto.
-        -- destruct H as (Hp & Hg & Hcur & Hr). split; [exact Hp|]. split.
-           ++ destruct Hg as (G1 & G2 & G3 & G4 & G5). unfold good. repeat split; auto.
+        destruct H as (Hp & Hg & Hcur & Hr). split; [exact Hp|]. split.
+           ++ exact Hg.
            ++ destruct Hg as (G1 & G2 & G3 & G4 & G5). constructor; auto.
               ** intros r' Hle. rewrite Hcur by lia.
                  unfold s2, with_receiving, with_cursors; cbn [ss_cursors].
                  rewrite cur_get_set_neq by lia. apply Hagree. lia.
-              ** right. split; [rewrite Hr; reflexivity|]. intros r0 m1 H0. inversion H0; subst. lia.
+              ** right. split; [rewrite Hr; reflexivity|]. intros r0 m1 H0. rewrite Ercv0 in H0. inversion H0; subst. lia.
     + apply Nat.eqb_neq in Eidx.
       apply Hplain.
       * destruct Hlr as [(He & _)|(He & _)]; [right; exists idx, m0; rewrite He; auto | left; auto].
@@ -397,7 +395,7 @@ Proof.
       assert (Hsrc : nth_recv written r = Some (c, t)).
       { specialize (Hsuf 0). rewrite Nat.add_0_r in Hsuf. exact Hsuf. }
       pose proof (handle_select_receive_ok r c t s Hsrc Hlive) as H.
-      destruct (handle_select_receive r c t rr s0 s mb) as [v mb'|s'|s'|e s'|n]; auto.
+      destruct (handle_select_receive r c t rr s0 s mb) as [v mb'|s'|s'|e s'|n]; try contradiction.
       * destruct H as (m & -> & Hp). rewrite Hp. reflexivity.
       * destruct H as (Hg & m & Hr & He). split; auto. exists r, m. split; auto.
         intros e Hv. rewrite (He e Hv). reflexivity.
